@@ -158,4 +158,23 @@ theorem temporal_text_roundtrip (w : Wall) (hb : Bounded w) (hn : w.nanos % 1000
    fun i l hl hx => (FP.Props.C13.dateTime_roundtrip i l hl w hb hx hn).2,
    fun i l hl hx => (FP.Props.C13.time_roundtrip i l hl w hb hx hn).2⟩
 
+open FP.Model FP.Model.Text FP.Model.Conv in
+/-- the canonical string form of a Decimal re-parses (`NewFromString ∘ String`) to a decimal of the
+    same value, for every coefficient and every exponent the library can hold; the decimal literal
+    of the grammar (`digits.digits`) is among these texts -/
+theorem decimal_text_roundtrip (d : Dec) (hexp : -2147483648 ≤ d.exp ∧ d.exp ≤ 2147483647) :
+    ∃ d', parseDecGo (renderDec d) = some d' ∧ Dec.eq d' d = true ∧
+      toDecimalV (.str (renderDec d)) = .ok (some (.dec d')) := by
+  obtain ⟨d', hp, he⟩ := FP.Lemmas.DecText.parseDecGo_renderDec d hexp
+  exact ⟨d', hp, he, by simp [toDecimalV, FP.Lemmas.DecText.matchesDecimal_render d, hp]⟩
+
+open FP.Model FP.Model.Text FP.Model.Conv in
+/-- Quantity: **partial** — the string form re-parses when the unit is a plain word (the calendar
+    keywords); a UCUM unit is written bare and does not (finding C13-quantity-string-form) -/
+theorem quantity_text_roundtrip_partial (d : Dec) (hexp : -2147483648 ≤ d.exp ∧ d.exp ≤ 2147483647)
+    (a : Char) (t : S) (hu : (a :: t).all isAlpha = true) :
+    ∃ d', toQuantityV (.str (renderQuantity d (a :: t))) = .ok (some (.quantity d' (a :: t))) ∧ Dec.eq d' d = true := by
+  obtain ⟨d', h, he⟩ := (FP.Props.C13.quantity_word_roundtrip_partial d hexp a t hu).2
+  exact ⟨d', by simpa [renderQuantity] using h, he⟩
+
 end FP.Props.C15
